@@ -162,6 +162,35 @@ fn case_oversize_props<F: Family>(input: &Input, ctx: &mut Ctx) -> CaseResult {
     Ok(())
 }
 
+/// Packet values of another provenance: whatever a decoder returned for a generated byte string (re-spelled, leniently
+/// framed, mutated frames included). A value the library hands out is a value its encoder must size correctly, whatever
+/// the spelling it was decoded from.
+fn case_decoded<F: Family>(input: &Input, ctx: &mut Ctx) -> CaseResult {
+    let mut t = Tape::new(input.tape());
+    let cfg = crate::gen::cfg_mix(&mut t, ctx.thorough);
+    let (b, origin) = crate::corpus::gen_input::<F>(&mut t, &cfg);
+    let mut seen = 0;
+    if let Ok(Some(q)) = F::decode(&b) {
+        lengths::<F>(&q, ctx).map_err(|v| Violation::new(format!("packet decoded from {} [{}]: {}", hex_short(&b, 96), origin, v.msg)))?;
+        seen += 1;
+    }
+    if let Ok(ok) = fam::dec_poll::<F>(&b).result {
+        if seen == 0 {
+            lengths::<F>(&ok.pkt, ctx)?;
+        }
+        seen += 1;
+    }
+    if seen > 0 {
+        ctx.label("decoded-value-sized");
+        ctx.label(&format!("decoded-from:{}", origin));
+    } else {
+        ctx.label("not-accepted");
+    }
+    Ok(())
+}
+
+pub const SUB_D3: Sub = Sub { name: "c02.decoded-values.v3", f: case_decoded::<V3> };
+pub const SUB_D5: Sub = Sub { name: "c02.decoded-values.v5", f: case_decoded::<V5> };
 pub const SUB_V3: Sub = Sub { name: "c02.lengths.v3", f: case::<V3> };
 pub const SUB_V5: Sub = Sub { name: "c02.lengths.v5", f: case::<V5> };
 pub const SUB_T3: Sub = Sub { name: "c02.typed.v3", f: case_typed::<V3> };
@@ -171,7 +200,7 @@ pub const SUB_S5: Sub = Sub { name: "c02.sized.v5", f: case_sized::<V5> };
 pub const SUB_O5: Sub = Sub { name: "c02.oversize_props.v5", f: case_oversize_props::<V5> };
 
 pub fn subs() -> Vec<Sub> {
-    vec![SUB_V3, SUB_V5, SUB_T3, SUB_T5, SUB_S3, SUB_S5, SUB_O5]
+    vec![SUB_V3, SUB_V5, SUB_T3, SUB_T5, SUB_S3, SUB_S5, SUB_O5, SUB_D3, SUB_D5]
 }
 
 pub fn run(env: &mut Env) -> RunResult {
@@ -180,6 +209,12 @@ pub fn run(env: &mut Env) -> RunResult {
     env.run_tapes(SUB_V5, n * 2, 200)?;
     env.run_tapes(SUB_T3, n / 2, 96)?;
     env.run_tapes(SUB_T5, n, 200)?;
+    env.run_tapes(SUB_D3, n * 2, 260)?;
+    env.run_tapes(SUB_D5, n * 4, 360)?;
+    for s in ["c02.decoded-values.v3", "c02.decoded-values.v5"] {
+        env.require(s, "decoded-value-sized");
+        env.require(s, "decoded-from:respelled");
+    }
     let mut sizes: Vec<u64> = vec![4, 5, 126, 127, 128, 129, 16_382, 16_383, 16_384, 16_385, 2_097_151, 2_097_152, 268_435_456, 268_435_457, 300_000_000];
     if env.thorough() {
         sizes.extend([2_097_150u64, 2_097_153, 268_435_454, 268_435_455]);
